@@ -6,14 +6,57 @@
 
     A case = configuration + the files in ADD order (sorter abstraction, pixels, geometry as seen through nibabel's
     DicomWrapper; extracted / given dictionary; affine of the per-file extension) + voxel-order string + embed flag
-    + filter + the implementation's observation. *)
+    + filter + the implementation's observation; and HISTORIES (audit 3, issue 1): other add orders with queries and
+    conversions in between, every call observed, and the same final conversion observed on that stack: the model is
+    evaluated AFTER THE SAME CALLS ([FullHist.hist_state] = [Stack.Model.run] of a C12 history) and compared, so that
+    "code after a history = model after that history" is part of the check and [C12_full_history] / [hist_history]
+    turn it into "= model on a fresh stack". *)
 From Coq Require Import List Bool Arith ZArith NArith QArith Qcanon Qabs.
 From DV Require Import Common.Res Common.Str Common.Jv Generated.T_conv
-  Stack.Model Orient.Model Conv.Geom Conv.Header Conv.CorrGeom
+  Stack.Model Orient.Model Conv.Geom Conv.Header
   Ext.Types Ext.Classes Ext.Seq Ext.Model Ext.Corr Filter.Model Filter.Proofs
-  Conv.Meta Conv.Full.
+  Conv.Meta Conv.Full Conv.FullHist.
 Import ListNotations.
 Local Open Scope nat_scope.
+
+(** small comparison helpers (self-contained: no dependency on the glue of other checks) *)
+Fixpoint nats_eqb (a b : list nat) : bool :=
+  match a, b with
+  | [], [] => true
+  | x :: xs, y :: ys => Nat.eqb x y && nats_eqb xs ys
+  | _, _ => false
+  end.
+Fixpoint zs_eqb (a b : list Z) : bool :=
+  match a, b with
+  | [], [] => true
+  | x :: xs, y :: ys => Z.eqb x y && zs_eqb xs ys
+  | _, _ => false
+  end.
+Fixpoint qs_eqb (a b : list Q) : bool :=
+  match a, b with
+  | [], [] => true
+  | x :: xs, y :: ys => Qeq_bool x y && qs_eqb xs ys
+  | _, _ => false
+  end.
+(** tolerance for float64 results on the inexact stream: 2^-30 *)
+Definition tol : Q := (1 # 1073741824)%Q.
+Definition q_close (exact : bool) (a b : Q) : bool :=
+  if exact then Qeq_bool a b else Qle_bool (Qabs (a - b)) tol.
+Definition mat_close (exact : bool) (a b : mat) : bool :=
+  (length a =? length b) &&
+  forallb (fun rr => (length (fst rr) =? length (snd rr)) &&
+                     forallb (fun xy => q_close exact (fst xy) (snd xy)) (combine (fst rr) (snd rr)))
+          (combine a b).
+(** the DicomWrapper contract on one file: single-file affine, slice indicator *)
+Definition contract_ok (exact : bool) (g : gfile) (A : mat) : bool :=
+  mat_close exact (file_affine g) A &&
+  q_close false (this (f_pos (g_file g))) (slice_indicator g).
+Fixpoint contracts_ok (exact : bool) (gs : list gfile) (As : list mat) : bool :=
+  match gs, As with
+  | [], [] => true
+  | g :: gr, A :: Ar => contract_ok exact g A && contracts_ok exact gr Ar
+  | _, _ => false
+  end.
 
 (** PUBLIC results only (audit 2, rule 5): the stack's private state (_files_info order, _shape_dirty) is not observed;
     that the state left behind is right is judged on what later calls return (the history oracle of props/convfull.py). *)
@@ -28,7 +71,24 @@ Record fobs := mkfobs {
   ob_units : str * str;
   ob_stimes : option (list Q);            (* argument of set_slice_times, None = not called *)
   ob_ext : option (ext jv);               (* the extension found in the header (None: there is none) *)
+  ob_T : option mat;                      (* its reorient_transform (not part of the extension model's header) *)
   ob_look : list (nat * (list Z * list (key * res jv)))   (* file id |-> voxel index of its pixel (0,0), get_meta there per key *)
+}.
+
+(** what one call of a history returned, read from the RETAINED result object at the end of the history (a result that
+    is changed by later calls shows up as a mismatch with the model's value at call time) *)
+Inductive hres :=
+| HR_none                                                   (* an add that was accepted *)
+| HR_raised                                                 (* the call raised *)
+| HR_shape (sh : list nat)
+| HR_affine (A : mat)
+| HR_data (sh : list nat) (d : list Z)
+| HR_conv (sh : list nat) (d : list Z) (dt : str) (A : mat) (slice_dim : option nat).
+
+Record fhist := mkfhist {
+  fh_ops : list hop;                       (* adds (indices into fc_files) with queries / conversions in between *)
+  fh_res : list hres;                      (* parallel: what every call returned *)
+  fh_final : fobs                          (* the case's conversion (fc_code, fc_embed) made on that stack afterwards *)
 }.
 
 Record fcase := mkfcase {
@@ -45,7 +105,8 @@ Record fcase := mkfcase {
   fc_default : bool;                       (* the stack uses dcmstack.default_meta_filter *)
   fc_filt : list (key * bool);             (* otherwise: the real filter's verdict for every key *)
   fc_wants_flip : option bool;             (* props/stacklib.wants_flip on the first added file *)
-  fc_obs : fobs
+  fc_obs : fobs;
+  fc_hists : list fhist
 }.
 
 Definition filt_of (c : fcase) : key -> bool :=
@@ -113,7 +174,7 @@ Definition look_ok (c : fcase) (go : geom_out) (h : hdr_out) (e : ext jv) (l : n
 Definition check_hdr_fields (h : hdr_out) (o : fobs) : bool :=
   let '(f, p, s) := h_dim_info h in
   let '(f', p', s') := ob_dim_info o in
-  CorrGeom.onat_eqb f f' && CorrGeom.onat_eqb p p' && CorrGeom.onat_eqb s s' &&
+  onat_eqb f f' && onat_eqb p p' && onat_eqb s s' &&
   Qeq_bool (match h_pixdim4 h with Some t => t | None => 1%Q end) (ob_pixdim4 o) &&
   str_eqb (fst (h_units h)) (fst (ob_units o)) && str_eqb (snd (h_units h)) (snd (ob_units o)) &&
   match h_slice_times h, ob_stimes o with
@@ -122,44 +183,119 @@ Definition check_hdr_fields (h : hdr_out) (o : fobs) : bool :=
   | _, _ => false
   end.
 
+(** a conversion result against an observation; [vo] = compare the voxel-order abstraction too (main conversion only) *)
+Definition result_ok (c : fcase) (vo : bool) (r : res (geom_out * hdr_out * option (ext jv))) (o : fobs) : bool :=
+  match r, ob_raised o with
+  | Err _, true => true                                   (* refused / raised: no class is promised *)
+  | Ok (go, h, oe), false =>
+      (* data, dtype, affine *)
+      nats_eqb (ashape (go_data go)) (ob_shape o) && zs_eqb (adata (go_data go)) (ob_data o) &&
+      str_eqb (go_dtype go) (ob_dtype o) && mat_close (fc_exact c) (go_aff go) (ob_aff o) &&
+      (* header fields *)
+      check_hdr_fields h o &&
+      (* the voxel-order abstraction is the model's own (with a single file per volume nothing is ever reversed and the
+         bit is immaterial: only "reorientation requested or not" is compared) *)
+      (negb vo ||
+       (if 1 <? h_n_slices h then ovo_eqb (o_vo (go_nifti go)) (fc_wants_flip c)
+        else Bool.eqb (is_some (o_vo (go_nifti go))) (is_some (fc_wants_flip c)))) &&
+      (* the extension and the lookups *)
+      match oe, ob_ext o with
+      | None, None => match ob_look o with [] => true | _ => false end
+      | Some e, Some e' => ext_close (fc_exact c) e e' && forallb (look_ok c go h e) (ob_look o)
+      | _, _ => false
+      end &&
+      (* the transform recorded in the extension is the transform of THIS conversion's reorientation (signed
+         permutation with integral / half-integral translations: exact in every stream) *)
+      match ob_T o with Some T => mat_close true (go_T go) T | None => true end
+  | _, _ => false
+  end.
+
+(** the model's answer to one call of a history *)
+Definition hop_model (c : fcase) (st : state) (h : hop) : hres :=
+  let gs := fc_files c in
+  match h with
+  | HAdd i => match nth_error gs i with
+              | Some g => match add_dcm st (g_file g) with Ok _ => HR_none | Err _ => HR_raised end
+              | None => HR_raised
+              end
+  | HShape => match snd (get_shape st) with Ok sh => HR_shape sh | Err _ => HR_raised end
+  | HData => match snd (get_data st) with
+             | Ok (ord, sh) => let a := stack_data gs ord sh in HR_data (ashape a) (adata a)
+             | Err _ => HR_raised
+             end
+  | HAffine => match snd (get_affine st) with
+               | Ok (i0, col) => match stack_affine gs i0 col with Ok A => HR_affine A | Err _ => HR_raised end
+               | Err _ => HR_raised
+               end
+  | HConv code em =>
+      match snd (conv_full jv_eqb JNull gs (metas c) st code em (filt_of c)) with
+      | Ok (go, h, _) => HR_conv (ashape (go_data go)) (adata (go_data go)) (go_dtype go) (go_aff go) (Some (h_slice_dim h))
+      | Err _ => HR_raised
+      end
+  end.
+
+Definition hres_ok (exact : bool) (m o : hres) : bool :=
+  match m, o with
+  | HR_none, HR_none | HR_raised, HR_raised => true
+  | HR_shape a, HR_shape b => nats_eqb a b
+  | HR_affine a, HR_affine b => mat_close exact a b
+  | HR_data sa da, HR_data sb db => nats_eqb sa sb && zs_eqb da db
+  | HR_conv sa da ta Aa xa, HR_conv sb db tb Ab xb =>
+      nats_eqb sa sb && zs_eqb da db && str_eqb ta tb && mat_close exact Aa Ab && onat_eqb xa xb
+  | _, _ => false
+  end.
+
+(** walk a history: every call's answer, then the state [run st (hop_ops ..)] (= the state the call leaves behind,
+    [FullHist.conv_full_state]) *)
+Fixpoint hist_walk (c : fcase) (st : state) (hs : list hop) (os : list hres) : bool :=
+  match hs, os with
+  | [], [] => true
+  | h :: hr, o :: or => hres_ok (fc_exact c) (hop_model c st h) o && hist_walk c (run st (hop_ops (fc_files c) st h)) hr or
+  | _, _ => false
+  end.
+
+Definition hist_ok (c : fcase) (fh : fhist) : bool :=
+  let st0 := init (fc_time c) (fc_vec c) in
+  hist_walk c st0 (fh_ops fh) (fh_res fh) &&
+  (* the model AFTER the same calls, in the sorter's own [run] *)
+  result_ok c false
+    (snd (conv_full jv_eqb JNull (fc_files c) (metas c) (hist_state (fc_files c) st0 (fh_ops fh))
+                    (fc_code c) (fc_embed c) (filt_of c)))
+    (fh_final fh).
+
 Definition check (c : fcase) : bool :=
-  let o := fc_obs c in
   contracts_ok (fc_exact c) (fc_files c) (fc_faffs c) &&
   maffs_ok (fc_exact c) (fc_files c) (fc_maffs c) &&
   (length (fc_metas c) =? length (fc_files c)) &&
   match model c with
   | Err _ => false                                            (* every add of a case succeeds *)
-  | Ok (st', r) =>
-      match r, ob_raised o with
-      | Err _, true => true                                   (* refused / raised: no class is promised *)
-      | Ok (go, h, oe), false =>
-          (* data, dtype, affine *)
-          nats_eqb (ashape (go_data go)) (ob_shape o) && zs_eqb (adata (go_data go)) (ob_data o) &&
-          str_eqb (go_dtype go) (ob_dtype o) && mat_close (fc_exact c) (go_aff go) (ob_aff o) &&
-          (* header fields *)
-          check_hdr_fields h o &&
-          (* the voxel-order abstraction is the model's own (with a single file per volume nothing is ever reversed and the
-             bit is immaterial: only "reorientation requested or not" is compared) *)
-          (if 1 <? h_n_slices h then ovo_eqb (o_vo (go_nifti go)) (fc_wants_flip c)
-           else Bool.eqb (is_some (o_vo (go_nifti go))) (is_some (fc_wants_flip c))) &&
-          (* the extension and the lookups *)
-          match oe, ob_ext o with
-          | None, None => match ob_look o with [] => true | _ => false end
-          | Some e, Some e' => ext_close (fc_exact c) e e' && forallb (look_ok c go h e) (ob_look o)
-          | _, _ => false
-          end
-      | _, _ => false
-      end
-  end.
+  | Ok (st', r) => result_ok c true r (fc_obs c)
+  end &&
+  forallb (hist_ok c) (fc_hists c).
 
 (** what the model computed, for replay files *)
-Definition show (c : fcase) :=
-  match model c with
-  | Err e => (Some e, [], false, ([], [], [], []), None, None)
-  | Ok (st', Err e) => (Some e, ids (files_info st'), shape_dirty st', ([], [], [], []), None, None)
-  | Ok (st', Ok (go, h, oe)) =>
-      (None, ids (files_info st'), shape_dirty st',
-       (ashape (go_data go), adata (go_data go), go_dtype go, map (map Qred) (go_aff go)),
-       Some (h_dim_info h, h_pixdim4 h, go_perm go, go_flips go, h_slice_times h, o_vo (go_nifti go)),
-       oe)
+Fixpoint hist_model (c : fcase) (st : state) (hs : list hop) : list hres :=
+  match hs with
+  | [] => []
+  | h :: r => hop_model c st h :: hist_model c (run st (hop_ops (fc_files c) st h)) r
   end.
+
+Definition show_result (r : res (geom_out * hdr_out * option (ext jv))) :=
+  match r with
+  | Err e => (Some e, ([], [], [], []), None, None)
+  | Ok (go, h, oe) =>
+      (None, (ashape (go_data go), adata (go_data go), go_dtype go, map (map Qred) (go_aff go)),
+       Some (h_dim_info h, h_pixdim4 h, go_perm go, go_flips go, h_slice_times h, o_vo (go_nifti go)), oe)
+  end.
+
+Definition show (c : fcase) :=
+  let st0 := init (fc_time c) (fc_vec c) in
+  (match model c with
+   | Err e => (Some e, ([], [], [], []), None, None)
+   | Ok (_, r) => show_result r
+   end,
+   map (fun fh => (hist_model c st0 (fh_ops fh),
+                   ids (files_info (hist_state (fc_files c) st0 (fh_ops fh))),
+                   show_result (snd (conv_full jv_eqb JNull (fc_files c) (metas c) (hist_state (fc_files c) st0 (fh_ops fh))
+                                               (fc_code c) (fc_embed c) (filt_of c)))))
+       (fc_hists c)).
